@@ -51,11 +51,12 @@ def _read(path):
     return d
 
 
-def load_files(layout):
+def load_files(layout, cwd=None):
     """InFile list from a parsed `.layout` (regular objects and loaded archive members)."""
+    import os
     out = []
     for i, f in enumerate(layout["files"]):
-        data = _read(f["path"])
+        data = _read(os.path.join(cwd, f["path"]) if cwd else f["path"])
         if f["member_range"] is not None:
             s, e = f["member_range"]
             data = data[s:e]
